@@ -11,6 +11,51 @@ CHECKS = {
  "C01": ("fault_enumeration", "5.C01",
          "Seeded deterministic simulation: fault sweep over every socket event and reply unit of sampled calls x fault kinds, plus random multi-fault histories, on Client/PooledClient/HashClient against a reference memcached; byte-ownership oracle on the simulated wire plus result-vs-server-state oracle on fault-free calls.",
          "deterministic simulation + fault injection; reply-ownership tags on the simulated wire"),
+ "C02": ("exploration", "5.C02",
+         "Seeded adversarial argument generation for every public operation on three client stacks; the simulated peer's strict parser and the call-intent log decide: raised with zero bytes sent, or parsed exactly as intended. Input-driven: no fault is needed, the oracle lives in the simulated peer.",
+         "deterministic simulation (simulated peer as strict parser oracle); seeded input search"),
+ "C03": ("exploration", "5.C03",
+         "Every cut set of short reply streams and sampled/structural cut sets of long ones, with EINTR and RECV_SIZE knobs, delivered by the simulated socket; differential oracle against whole-reply delivery plus wire ownership checks.",
+         "deterministic simulation; delivery-schedule (segmentation) search with differential oracle"),
+ "C04": ("exploration", "5.C04",
+         "Store->fetch histories through the real client against the reference node with independently constructed legal keys, serdes, prefixes, key collection types and delivery schedules; independent decoding of what the server holds.",
+         "deterministic simulation against a reference memcached; seeded input/configuration search"),
+ "C05": ("exploration", "5.C05",
+         "Histories of 5-40 calls over a tiny key universe with clock advances and peer-side changes; an abstract map with expiry and cas versions stepped in lock-step, with return-value and server-state cross-checks after every call.",
+         "deterministic simulation with virtual clock; lock-step refinement against a reference model"),
+ "C06": ("fault_enumeration", "5.C06",
+         "Fault sweep over all nine socket-module event kinds x error kinds for TCP (1-3 resolved addresses), UNIX and TLS connections; socket ledger (open-socket bound, reachability walk for leaks, timeouts in force, TLS wrapper use, fresh connection after failure, address fallback).",
+         "deterministic simulation + fault injection; socket lifecycle ledger"),
+ "C07": ("fault_enumeration", "5.C07",
+         "Read calls with ignore_exc on three stacks under the C01 fault sweep, failing deserialisers and node-down kinds; differential oracle against the same call on healthy empty servers (miss) and without faults (hit).",
+         "deterministic simulation + fault injection; differential miss/hit oracle"),
+ "C08": ("exploration", "5.C08",
+         "Real threads run one at a time under a seeded scheduler with bytecode-instruction, socket-event and lock-operation pre-emption points; complete single-pre-emption sweeps per workload plus random and PCT schedules; ownership/size/duplicate/deadlock invariants at every point, close-once and nothing-checked-out at the end.",
+         "deterministic thread scheduling (baton passing, sys.monitoring instruction events); seeded schedule search"),
+ "C09": ("fault_enumeration", "5.C09",
+         "Pooled histories with per-call fault sweeps and idle gaps below/exactly at/above pool_idle_timeout on the virtual clock; pool ledger (nothing checked out, failed connection closed and never reused, healthy one reused, idle-expired one closed).",
+         "deterministic simulation + fault injection; virtual clock; pool ledger"),
+ "C10": ("fault_enumeration", "5.C10",
+         "KeyboardInterrupt / SystemExit / BaseException-subclass raised from inside every socket event of sampled calls, followed by further calls; C01's ownership oracle plus pool-slot ledger.",
+         "deterministic simulation; crash-point (interruption) enumeration over socket events"),
+ "C12": ("exploration", "5.C12",
+         "HashClient over 1-5 simulated servers: per-server command logs against an independent reference placement (rendezvous over from-the-C-source MurmurHash3) plus a single abstract map in lock-step; also on rotations reduced by failover.",
+         "deterministic multi-node simulation; per-node command logs vs reference placement"),
+ "C13": ("exploration", "5.C13",
+         "Timed histories of operations, clock advances and server failures/recoveries (five failure kinds) with a healing suffix, on the virtual clock; history oracles for contact-rate bounds, premature eviction, bypassing, bounded recovery and escaping exceptions.",
+         "deterministic multi-node simulation with virtual clock and node faults; history checking"),
+ "C16": ("exploration", "5.C16",
+         "One seeded operation list replayed on five client stacks in identical simulated worlds over a configuration grid; parsed command streams, results, exception classes and final stores compared with Client's.",
+         "deterministic simulation; differential replay across client stacks"),
+ "C17": ("fault_enumeration", "5.C17",
+         "The complete decision table (attempts x outcome sequences x retry_for x do_not_retry_for) executed against a scripted inner client, plus invalid configurations and end-to-end cells with a real Client failing by injected socket faults; reference decision function, virtual-clock sleep log.",
+         "deterministic simulation; exhaustive outcome-sequence enumeration with virtual clock"),
+ "C18": ("exploration", "5.C18",
+         "FallbackClient over 1-4 real Clients on simulated servers with enumerated/sampled hit-miss matrices and down fallbacks; per-server command logs decide visit order, stop point, returned value and write locality.",
+         "deterministic multi-node simulation; per-node command logs"),
+ "C19": ("exploration", "5.C19",
+         "Simulated ElastiCache endpoint and cache nodes; construction and sequences of reconfigurations with segmented config replies and ERROR endpoints; per-node command logs vs reference placement over the advertised list, address kind per use_vpc, socket ledger.",
+         "deterministic multi-node simulation; reconfiguration histories; per-node command logs"),
 }
 NA = {
  "C11": "pure function of (key, node set): no schedule, clock, fault or peer to simulate (DESIGN 6)",
@@ -18,7 +63,7 @@ NA = {
  "C15": "pure serialize/deserialize functions, no I/O or state: not a simulation target (DESIGN 6)",
  "C20": "pure predicate on (key, prefix, allow_unicode_keys): not a simulation target (DESIGN 6)",
 }
-PENDING = "check not built yet in this round (planned, see DESIGN 9); not claimed until it exists"
+PENDING = "not claimed"
 ALL = ["C%02d" % i for i in range(1, 21)]
 
 m = {
